@@ -98,7 +98,8 @@ func init() { checks["C02"] = checkC02 }
 func checkC02(c *Ctx) (int, error) {
 	c.ev.Level = "model_checking"
 	c.ev.Assumptions = []string{"block structures, code shapes, token classes and header encodings are drawn by TLC from StreamGen (seeded simulation over the legal descriptor space); concrete code lengths, symbols and payloads are seeded samples",
-		"a descriptor's predicted verdict is cross-checked against compress/flate and the reference inflater before use"}
+		"a descriptor's predicted verdict is cross-checked against compress/flate and the reference inflater before use",
+		"the 'collide' streams (consecutive blocks whose different codes have code-length lists with the same 32-bit digest) guess at an implementation (digest, layout); they are not derived from the specification"}
 	if err := c.readerModels(); err != nil {
 		return 0, err
 	}
@@ -132,6 +133,8 @@ func checkC02(c *Ctx) (int, error) {
 		pp = 6
 	}
 	streams = append(streams, boundaryStreams(rng, pp, false)...)
+	// consecutive dynamic blocks with different codes whose code-length lists have the same 32-bit digest
+	streams = append(streams, collideStreams(rng, pp)...)
 	// long streams of symbols with three- and four-bit codes: the output window fills dozens of
 	// times, at every alignment relative to the multi-symbol table entries
 	nLong := 5
